@@ -199,11 +199,37 @@ func runC17(c *Ctx) {
 							}
 							tv, isC := info.Types[as.Rhs[0]]
 							v := objOf(info, as.Lhs[0])
-							if !isC || tv.Value == nil || tv.Value.String() != "true" || v == nil {
+							if !isC || tv.Value == nil || v == nil {
 								return true
 							}
-							if fl.Dominated(site.Site, site.Inner, func(a Atom) bool { return !a.Truth && a.Tag == nil && objOf(info, a.E) == v }) {
-								reach = false
+							switch tv.Value.String() {
+							case "true":
+								if fl.Dominated(site.Site, site.Inner, func(a Atom) bool { return !a.Truth && a.Tag == nil && objOf(info, a.E) == v }) {
+									reach = false
+								}
+							case "false":
+								// the opposite polarity: `stale := true` at the top of the iteration, cleared when
+								// the scan succeeds, and the action runs only where the flag still holds
+								others, okOthers := 0, true
+								ast.Inspect(outer.Body, func(m ast.Node) bool {
+									as2, isAs2 := m.(*ast.AssignStmt)
+									if !isAs2 || as2 == as {
+										return true
+									}
+									for i, l := range as2.Lhs {
+										if objOf(info, l) != v {
+											continue
+										}
+										others++
+										if as2.Tok != token.DEFINE || as2.Pos() > cond.Pos() || i >= len(as2.Rhs) || exprStr(as2.Rhs[i]) != "true" {
+											okOthers = false
+										}
+									}
+									return true
+								})
+								if others == 1 && okOthers && fl.Dominated(site.Site, site.Inner, func(a Atom) bool { return a.Truth && a.Tag == nil && objOf(info, a.E) == v }) {
+									reach = false
+								}
 							}
 							return true
 						})
